@@ -2653,7 +2653,8 @@ def gen_apifx(src_dir):
                     v = norm(e[3])
                     table = {('prog', 'Some(prog)'): 'FxSetProg', ('verifier', 'verifier'): 'FxSetVerifier', ('jit', 'None'): 'FxClear "jit"',
                              ('cranelift_prog', 'None'): 'FxClear "cranelift"', ('stack_usage', 'Some(stack_usage)'): 'FxSetUsage',
-                             ('stack_verifier', 'stack_verifier'): 'FxSetCalc', ('cranelift_prog', 'Some(program)'): 'FxStore "cranelift"'}
+                             ('stack_verifier', 'stack_verifier'): 'FxSetCalc', ('cranelift_prog', 'Some(program)'): 'FxStore "cranelift"',
+                             ('custom_exec_memory', 'Some(memory)'): 'FxSetExecMem'}
                     if (f, v) in table:
                         out.append(table[(f, v)])
                         continue
@@ -2735,6 +2736,12 @@ def gen_apifx(src_dir):
     out.append("(* the same methods as compiled without the std feature *)\n")
     for fn in API_FNS:
         out.append("Definition gen_fx_%s_no_std : list fx :=\n  [%s].\n\n" % (fn, '; '.join(effects('EbpfVmMbuff', fn, 'no_std'))))
+    # set_jit_exec_memory exists only without std: every kind stores the caller's memory and does nothing else (or delegates)
+    xm = effects('EbpfVmMbuff', 'set_jit_exec_memory', 'no_std')
+    for kn, ty in KINDS[1:]:
+        if not delegates(ty, 'set_jit_exec_memory') and effects(ty, 'set_jit_exec_memory', 'no_std') != xm:
+            raise Unsupported("%s::set_jit_exec_memory neither delegates to its parent nor has the effects of EbpfVmMbuff::set_jit_exec_memory" % ty)
+    out.append("Definition gen_fx_set_jit_exec_memory_no_std : list fx :=\n  [%s].\n\n" % '; '.join(xm))
     for (ty, fn), fields in sorted(after.items()):
         out.append("(* %s::%s calls the parent's %s first and only then updates its own fields *)\n"
                    "Definition gen_fx_%s_%s_then : list string := [%s].\n" % (ty, fn, fn, ty, fn, '; '.join('"%s"' % f for f in fields)))
